@@ -49,6 +49,7 @@ BOUNDS = {
         "B3": "work list changed by the loop body: 7 mutations x 3 reads (last / reverse_index / both) x 3 placements (before / after / both) x 3 initial lengths x 3 frames x modes on/page",
         "B4": "`% for` using loop inside a nested callable (anonymous block, <%call> body, the same two inside a def, def nested in a def, def inside a <%namespace> tag) used inside a `% for` of the enclosing callable that mentions loop or not: 6 x 2 x 3 iterables x 8 uses x 3 exits x modes on/page",
         "B5": "loop attributes read on some iterations only: 12 reads x 11 gates (item-gated, after continue, conditional expression, twice, inner loop that is sometimes empty) x 2 iterables x 3 frames x modes on/page",
+        "F": "a <% %> block whose line break is consumed by a backslash as the last (or only) statement of every clause of if/elif/else, for/else, while, try/except: 16 shapes x 3 frames x modes on/page x 4 spellings",
         "C": "skeletons with <=3 '%' lines: all 4^n indentations (LF/CRLF and '% kw' / '%kw' / '%  kw' rotating); 4..6 lines: 16-row cover x LF/CRLF",
         "D": "block shapes x 4 margins x 5 positions x LF/CRLF",
         "E": "except forms x raised x handler count",
@@ -60,6 +61,7 @@ BOUNDS = {
         "B3": "work list changed by the loop body: 7 mutations x 3 reads x 3 placements x 3 initial lengths x 8 frames x 4 modes",
         "B4": "6 nested-callable kinds x 2 x 7 iterables x 8 uses x 3 exits x 4 modes",
         "B5": "12 reads x 11 gates x 2 iterables x 8 frames x 4 modes",
+        "F": "16 shapes x 8 frames x 4 modes x 4 spellings",
         "C": "skeletons with <=4 '%' lines: all 4^n indentations x LF/CRLF ('% kw' / '%kw' / '%  kw' rotating); 5..8 lines: 16-row cover x LF/CRLF",
         "D": "block shapes x 4 margins x 5 positions x LF/CRLF",
         "E": "except forms x raised x handler count",
@@ -923,6 +925,38 @@ def family_B5(tier, dat):
 
 
 # --------------------------------------------------------------------------
+# family F: a <% %> block that ENDS a clause body (its line break consumed by a backslash, so that the next thing in the
+# source is the following clause keyword or the end line), in every clause of if/elif/else, for/else, while, try/except
+
+def family_F(tier, dat):
+    L = lambda *p: ("L", tuple(p))  # noqa
+    tx = dat["texts"]
+    P = lambda code: ("Py", (code,), "inline-cont")  # noqa
+    frames = ["top", "for", "def"] if tier == "quick" else [f for f in FRAMES if f != "outer"]
+    modes = ["on", "page"] if tier == "quick" else MODES
+    shapes = []
+    for only in (False, True):  # the block is the only statement of the clause / follows a text line
+        pre = () if only else (L(("t", tx[0])),)
+        shapes.append(("if-elif-else", (("If", (("x == 'no'", pre + (P("k1 = 1"),)), ("q", pre + (P("k2 = 2"),)), ("p", pre + (P("k3 = 3"),))), pre + (P("k4 = 4"),)), L(("t", "after")))))
+        shapes.append(("if-else", (("If", (("p", pre + (P("k1 = 1"),)),), pre + (P("k2 = 2"),)), L(("e", "k1")))))
+        shapes.append(("else-taken", (("If", (("q", pre + (P("k1 = 1"),)),), pre + (P("k2 = 2"),)), L(("e", "k2")))))
+        shapes.append(("for-else", (("For", "i", "[1, 2]", pre + (P("k1 = i"),), pre + (P("k2 = 9"),), None), L(("e", "k1"), ("e", "k2")))))
+        shapes.append(("while", (("Py", ("w = 0",), "inline"), ("While", "w < 2", pre + (P("w += 1"),)), L(("e", "w")))))
+        shapes.append(("try-except", (("Try", pre + (P("k1 = int('zz')"),), (("ValueError", pre + (P("k2 = 5"),)),)), L(("e", "k2")))))
+        shapes.append(("try-except-not-raised", (("Try", pre + (P("k1 = int('7')"),), (("ValueError", pre + (P("k1 = 5"),)),)), L(("e", "k1")))))
+        shapes.append(("nested-if-in-for", (("For", "i", "[1, 2]", (("If", (("i == 1", pre + (P("k1 = 1"),)),), pre + (P("k1 = 2"),)), L(("e", "k1"))), None, None),)))
+    k = 0
+    for name, S in shapes:
+        for fr in frames:
+            d, b = frame(fr, S, dat)
+            prog = {"defs": d, "body": b, "page": None}
+            for mode in modes:
+                for sp in range(4):
+                    yield ("F-block-ends-clause", prog, mode, [spelling((k + 5 * sp) % 16)])
+                k += 1
+
+
+# --------------------------------------------------------------------------
 # family C: spellings
 
 
@@ -1115,7 +1149,7 @@ def family_E(tier, dat):
                         k += 1
 
 
-FAMILIES = [family_A, family_B, family_B2, family_B3, family_B4, family_B5, family_C, family_D, family_E]
+FAMILIES = [family_A, family_B, family_B2, family_B3, family_B4, family_B5, family_F, family_C, family_D, family_E]
 
 
 def all_cases(tier, seed):
